@@ -381,145 +381,289 @@ def two_crashes_body(tf, has_fai, has_agp, t0, t1, t2, cp, fl, del_fai, del_agp,
     return FIN(load_ok(fs))
 
 
-def two_crashes_then_load_0000(tf: int, t0: int, t1: int, t2: int, cp: int, fl: int, cp2: int, fl2: int) -> bool:
+def two_crashes_then_load_0000a(tf: int, t0: int, t1: int, t2: int, cp: int, fl: int, cp2: int, fl2: int) -> bool:
     """
     pre: tf >= 100 and t0 >= 0 and t1 >= 0 and t2 >= 0
-    pre: 0 <= cp <= 40 and 0 <= fl <= 12 and 0 <= cp2 <= 40 and 0 <= fl2 <= 12
+    pre: 0 <= cp <= 10 and 0 <= fl <= 12 and 0 <= cp2 <= 40 and 0 <= fl2 <= 12
     post: _
     """
     return two_crashes_body(tf, False, False, t0, t1, t2, cp, fl, False, False, cp2, fl2)
 
 
-def two_crashes_then_load_0001(tf: int, t0: int, t1: int, t2: int, cp: int, fl: int, cp2: int, fl2: int) -> bool:
+def two_crashes_then_load_0000b(tf: int, t0: int, t1: int, t2: int, cp: int, fl: int, cp2: int, fl2: int) -> bool:
     """
     pre: tf >= 100 and t0 >= 0 and t1 >= 0 and t2 >= 0
-    pre: 0 <= cp <= 40 and 0 <= fl <= 12 and 0 <= cp2 <= 40 and 0 <= fl2 <= 12
+    pre: 11 <= cp <= 40 and 0 <= fl <= 12 and 0 <= cp2 <= 40 and 0 <= fl2 <= 12
+    post: _
+    """
+    return two_crashes_body(tf, False, False, t0, t1, t2, cp, fl, False, False, cp2, fl2)
+
+
+def two_crashes_then_load_0001a(tf: int, t0: int, t1: int, t2: int, cp: int, fl: int, cp2: int, fl2: int) -> bool:
+    """
+    pre: tf >= 100 and t0 >= 0 and t1 >= 0 and t2 >= 0
+    pre: 0 <= cp <= 10 and 0 <= fl <= 12 and 0 <= cp2 <= 40 and 0 <= fl2 <= 12
     post: _
     """
     return two_crashes_body(tf, False, False, t0, t1, t2, cp, fl, False, True, cp2, fl2)
 
 
-def two_crashes_then_load_0010(tf: int, t0: int, t1: int, t2: int, cp: int, fl: int, cp2: int, fl2: int) -> bool:
+def two_crashes_then_load_0001b(tf: int, t0: int, t1: int, t2: int, cp: int, fl: int, cp2: int, fl2: int) -> bool:
     """
     pre: tf >= 100 and t0 >= 0 and t1 >= 0 and t2 >= 0
-    pre: 0 <= cp <= 40 and 0 <= fl <= 12 and 0 <= cp2 <= 40 and 0 <= fl2 <= 12
+    pre: 11 <= cp <= 40 and 0 <= fl <= 12 and 0 <= cp2 <= 40 and 0 <= fl2 <= 12
+    post: _
+    """
+    return two_crashes_body(tf, False, False, t0, t1, t2, cp, fl, False, True, cp2, fl2)
+
+
+def two_crashes_then_load_0010a(tf: int, t0: int, t1: int, t2: int, cp: int, fl: int, cp2: int, fl2: int) -> bool:
+    """
+    pre: tf >= 100 and t0 >= 0 and t1 >= 0 and t2 >= 0
+    pre: 0 <= cp <= 10 and 0 <= fl <= 12 and 0 <= cp2 <= 40 and 0 <= fl2 <= 12
     post: _
     """
     return two_crashes_body(tf, False, False, t0, t1, t2, cp, fl, True, False, cp2, fl2)
 
 
-def two_crashes_then_load_0011(tf: int, t0: int, t1: int, t2: int, cp: int, fl: int, cp2: int, fl2: int) -> bool:
+def two_crashes_then_load_0010b(tf: int, t0: int, t1: int, t2: int, cp: int, fl: int, cp2: int, fl2: int) -> bool:
     """
     pre: tf >= 100 and t0 >= 0 and t1 >= 0 and t2 >= 0
-    pre: 0 <= cp <= 40 and 0 <= fl <= 12 and 0 <= cp2 <= 40 and 0 <= fl2 <= 12
+    pre: 11 <= cp <= 40 and 0 <= fl <= 12 and 0 <= cp2 <= 40 and 0 <= fl2 <= 12
+    post: _
+    """
+    return two_crashes_body(tf, False, False, t0, t1, t2, cp, fl, True, False, cp2, fl2)
+
+
+def two_crashes_then_load_0011a(tf: int, t0: int, t1: int, t2: int, cp: int, fl: int, cp2: int, fl2: int) -> bool:
+    """
+    pre: tf >= 100 and t0 >= 0 and t1 >= 0 and t2 >= 0
+    pre: 0 <= cp <= 10 and 0 <= fl <= 12 and 0 <= cp2 <= 40 and 0 <= fl2 <= 12
     post: _
     """
     return two_crashes_body(tf, False, False, t0, t1, t2, cp, fl, True, True, cp2, fl2)
 
 
-def two_crashes_then_load_0100(tf: int, t0: int, t1: int, t2: int, cp: int, fl: int, cp2: int, fl2: int) -> bool:
+def two_crashes_then_load_0011b(tf: int, t0: int, t1: int, t2: int, cp: int, fl: int, cp2: int, fl2: int) -> bool:
     """
     pre: tf >= 100 and t0 >= 0 and t1 >= 0 and t2 >= 0
-    pre: 0 <= cp <= 40 and 0 <= fl <= 12 and 0 <= cp2 <= 40 and 0 <= fl2 <= 12
+    pre: 11 <= cp <= 40 and 0 <= fl <= 12 and 0 <= cp2 <= 40 and 0 <= fl2 <= 12
+    post: _
+    """
+    return two_crashes_body(tf, False, False, t0, t1, t2, cp, fl, True, True, cp2, fl2)
+
+
+def two_crashes_then_load_0100a(tf: int, t0: int, t1: int, t2: int, cp: int, fl: int, cp2: int, fl2: int) -> bool:
+    """
+    pre: tf >= 100 and t0 >= 0 and t1 >= 0 and t2 >= 0
+    pre: 0 <= cp <= 10 and 0 <= fl <= 12 and 0 <= cp2 <= 40 and 0 <= fl2 <= 12
     post: _
     """
     return two_crashes_body(tf, False, True, t0, t1, t2, cp, fl, False, False, cp2, fl2)
 
 
-def two_crashes_then_load_0101(tf: int, t0: int, t1: int, t2: int, cp: int, fl: int, cp2: int, fl2: int) -> bool:
+def two_crashes_then_load_0100b(tf: int, t0: int, t1: int, t2: int, cp: int, fl: int, cp2: int, fl2: int) -> bool:
     """
     pre: tf >= 100 and t0 >= 0 and t1 >= 0 and t2 >= 0
-    pre: 0 <= cp <= 40 and 0 <= fl <= 12 and 0 <= cp2 <= 40 and 0 <= fl2 <= 12
+    pre: 11 <= cp <= 40 and 0 <= fl <= 12 and 0 <= cp2 <= 40 and 0 <= fl2 <= 12
+    post: _
+    """
+    return two_crashes_body(tf, False, True, t0, t1, t2, cp, fl, False, False, cp2, fl2)
+
+
+def two_crashes_then_load_0101a(tf: int, t0: int, t1: int, t2: int, cp: int, fl: int, cp2: int, fl2: int) -> bool:
+    """
+    pre: tf >= 100 and t0 >= 0 and t1 >= 0 and t2 >= 0
+    pre: 0 <= cp <= 10 and 0 <= fl <= 12 and 0 <= cp2 <= 40 and 0 <= fl2 <= 12
     post: _
     """
     return two_crashes_body(tf, False, True, t0, t1, t2, cp, fl, False, True, cp2, fl2)
 
 
-def two_crashes_then_load_0110(tf: int, t0: int, t1: int, t2: int, cp: int, fl: int, cp2: int, fl2: int) -> bool:
+def two_crashes_then_load_0101b(tf: int, t0: int, t1: int, t2: int, cp: int, fl: int, cp2: int, fl2: int) -> bool:
     """
     pre: tf >= 100 and t0 >= 0 and t1 >= 0 and t2 >= 0
-    pre: 0 <= cp <= 40 and 0 <= fl <= 12 and 0 <= cp2 <= 40 and 0 <= fl2 <= 12
+    pre: 11 <= cp <= 40 and 0 <= fl <= 12 and 0 <= cp2 <= 40 and 0 <= fl2 <= 12
+    post: _
+    """
+    return two_crashes_body(tf, False, True, t0, t1, t2, cp, fl, False, True, cp2, fl2)
+
+
+def two_crashes_then_load_0110a(tf: int, t0: int, t1: int, t2: int, cp: int, fl: int, cp2: int, fl2: int) -> bool:
+    """
+    pre: tf >= 100 and t0 >= 0 and t1 >= 0 and t2 >= 0
+    pre: 0 <= cp <= 10 and 0 <= fl <= 12 and 0 <= cp2 <= 40 and 0 <= fl2 <= 12
     post: _
     """
     return two_crashes_body(tf, False, True, t0, t1, t2, cp, fl, True, False, cp2, fl2)
 
 
-def two_crashes_then_load_0111(tf: int, t0: int, t1: int, t2: int, cp: int, fl: int, cp2: int, fl2: int) -> bool:
+def two_crashes_then_load_0110b(tf: int, t0: int, t1: int, t2: int, cp: int, fl: int, cp2: int, fl2: int) -> bool:
     """
     pre: tf >= 100 and t0 >= 0 and t1 >= 0 and t2 >= 0
-    pre: 0 <= cp <= 40 and 0 <= fl <= 12 and 0 <= cp2 <= 40 and 0 <= fl2 <= 12
+    pre: 11 <= cp <= 40 and 0 <= fl <= 12 and 0 <= cp2 <= 40 and 0 <= fl2 <= 12
+    post: _
+    """
+    return two_crashes_body(tf, False, True, t0, t1, t2, cp, fl, True, False, cp2, fl2)
+
+
+def two_crashes_then_load_0111a(tf: int, t0: int, t1: int, t2: int, cp: int, fl: int, cp2: int, fl2: int) -> bool:
+    """
+    pre: tf >= 100 and t0 >= 0 and t1 >= 0 and t2 >= 0
+    pre: 0 <= cp <= 10 and 0 <= fl <= 12 and 0 <= cp2 <= 40 and 0 <= fl2 <= 12
     post: _
     """
     return two_crashes_body(tf, False, True, t0, t1, t2, cp, fl, True, True, cp2, fl2)
 
 
-def two_crashes_then_load_1000(tf: int, t0: int, t1: int, t2: int, cp: int, fl: int, cp2: int, fl2: int) -> bool:
+def two_crashes_then_load_0111b(tf: int, t0: int, t1: int, t2: int, cp: int, fl: int, cp2: int, fl2: int) -> bool:
     """
     pre: tf >= 100 and t0 >= 0 and t1 >= 0 and t2 >= 0
-    pre: 0 <= cp <= 40 and 0 <= fl <= 12 and 0 <= cp2 <= 40 and 0 <= fl2 <= 12
+    pre: 11 <= cp <= 40 and 0 <= fl <= 12 and 0 <= cp2 <= 40 and 0 <= fl2 <= 12
+    post: _
+    """
+    return two_crashes_body(tf, False, True, t0, t1, t2, cp, fl, True, True, cp2, fl2)
+
+
+def two_crashes_then_load_1000a(tf: int, t0: int, t1: int, t2: int, cp: int, fl: int, cp2: int, fl2: int) -> bool:
+    """
+    pre: tf >= 100 and t0 >= 0 and t1 >= 0 and t2 >= 0
+    pre: 0 <= cp <= 10 and 0 <= fl <= 12 and 0 <= cp2 <= 40 and 0 <= fl2 <= 12
     post: _
     """
     return two_crashes_body(tf, True, False, t0, t1, t2, cp, fl, False, False, cp2, fl2)
 
 
-def two_crashes_then_load_1001(tf: int, t0: int, t1: int, t2: int, cp: int, fl: int, cp2: int, fl2: int) -> bool:
+def two_crashes_then_load_1000b(tf: int, t0: int, t1: int, t2: int, cp: int, fl: int, cp2: int, fl2: int) -> bool:
     """
     pre: tf >= 100 and t0 >= 0 and t1 >= 0 and t2 >= 0
-    pre: 0 <= cp <= 40 and 0 <= fl <= 12 and 0 <= cp2 <= 40 and 0 <= fl2 <= 12
+    pre: 11 <= cp <= 40 and 0 <= fl <= 12 and 0 <= cp2 <= 40 and 0 <= fl2 <= 12
+    post: _
+    """
+    return two_crashes_body(tf, True, False, t0, t1, t2, cp, fl, False, False, cp2, fl2)
+
+
+def two_crashes_then_load_1001a(tf: int, t0: int, t1: int, t2: int, cp: int, fl: int, cp2: int, fl2: int) -> bool:
+    """
+    pre: tf >= 100 and t0 >= 0 and t1 >= 0 and t2 >= 0
+    pre: 0 <= cp <= 10 and 0 <= fl <= 12 and 0 <= cp2 <= 40 and 0 <= fl2 <= 12
     post: _
     """
     return two_crashes_body(tf, True, False, t0, t1, t2, cp, fl, False, True, cp2, fl2)
 
 
-def two_crashes_then_load_1010(tf: int, t0: int, t1: int, t2: int, cp: int, fl: int, cp2: int, fl2: int) -> bool:
+def two_crashes_then_load_1001b(tf: int, t0: int, t1: int, t2: int, cp: int, fl: int, cp2: int, fl2: int) -> bool:
     """
     pre: tf >= 100 and t0 >= 0 and t1 >= 0 and t2 >= 0
-    pre: 0 <= cp <= 40 and 0 <= fl <= 12 and 0 <= cp2 <= 40 and 0 <= fl2 <= 12
+    pre: 11 <= cp <= 40 and 0 <= fl <= 12 and 0 <= cp2 <= 40 and 0 <= fl2 <= 12
+    post: _
+    """
+    return two_crashes_body(tf, True, False, t0, t1, t2, cp, fl, False, True, cp2, fl2)
+
+
+def two_crashes_then_load_1010a(tf: int, t0: int, t1: int, t2: int, cp: int, fl: int, cp2: int, fl2: int) -> bool:
+    """
+    pre: tf >= 100 and t0 >= 0 and t1 >= 0 and t2 >= 0
+    pre: 0 <= cp <= 10 and 0 <= fl <= 12 and 0 <= cp2 <= 40 and 0 <= fl2 <= 12
     post: _
     """
     return two_crashes_body(tf, True, False, t0, t1, t2, cp, fl, True, False, cp2, fl2)
 
 
-def two_crashes_then_load_1011(tf: int, t0: int, t1: int, t2: int, cp: int, fl: int, cp2: int, fl2: int) -> bool:
+def two_crashes_then_load_1010b(tf: int, t0: int, t1: int, t2: int, cp: int, fl: int, cp2: int, fl2: int) -> bool:
     """
     pre: tf >= 100 and t0 >= 0 and t1 >= 0 and t2 >= 0
-    pre: 0 <= cp <= 40 and 0 <= fl <= 12 and 0 <= cp2 <= 40 and 0 <= fl2 <= 12
+    pre: 11 <= cp <= 40 and 0 <= fl <= 12 and 0 <= cp2 <= 40 and 0 <= fl2 <= 12
+    post: _
+    """
+    return two_crashes_body(tf, True, False, t0, t1, t2, cp, fl, True, False, cp2, fl2)
+
+
+def two_crashes_then_load_1011a(tf: int, t0: int, t1: int, t2: int, cp: int, fl: int, cp2: int, fl2: int) -> bool:
+    """
+    pre: tf >= 100 and t0 >= 0 and t1 >= 0 and t2 >= 0
+    pre: 0 <= cp <= 10 and 0 <= fl <= 12 and 0 <= cp2 <= 40 and 0 <= fl2 <= 12
     post: _
     """
     return two_crashes_body(tf, True, False, t0, t1, t2, cp, fl, True, True, cp2, fl2)
 
 
-def two_crashes_then_load_1100(tf: int, t0: int, t1: int, t2: int, cp: int, fl: int, cp2: int, fl2: int) -> bool:
+def two_crashes_then_load_1011b(tf: int, t0: int, t1: int, t2: int, cp: int, fl: int, cp2: int, fl2: int) -> bool:
     """
     pre: tf >= 100 and t0 >= 0 and t1 >= 0 and t2 >= 0
-    pre: 0 <= cp <= 40 and 0 <= fl <= 12 and 0 <= cp2 <= 40 and 0 <= fl2 <= 12
+    pre: 11 <= cp <= 40 and 0 <= fl <= 12 and 0 <= cp2 <= 40 and 0 <= fl2 <= 12
+    post: _
+    """
+    return two_crashes_body(tf, True, False, t0, t1, t2, cp, fl, True, True, cp2, fl2)
+
+
+def two_crashes_then_load_1100a(tf: int, t0: int, t1: int, t2: int, cp: int, fl: int, cp2: int, fl2: int) -> bool:
+    """
+    pre: tf >= 100 and t0 >= 0 and t1 >= 0 and t2 >= 0
+    pre: 0 <= cp <= 10 and 0 <= fl <= 12 and 0 <= cp2 <= 40 and 0 <= fl2 <= 12
     post: _
     """
     return two_crashes_body(tf, True, True, t0, t1, t2, cp, fl, False, False, cp2, fl2)
 
 
-def two_crashes_then_load_1101(tf: int, t0: int, t1: int, t2: int, cp: int, fl: int, cp2: int, fl2: int) -> bool:
+def two_crashes_then_load_1100b(tf: int, t0: int, t1: int, t2: int, cp: int, fl: int, cp2: int, fl2: int) -> bool:
     """
     pre: tf >= 100 and t0 >= 0 and t1 >= 0 and t2 >= 0
-    pre: 0 <= cp <= 40 and 0 <= fl <= 12 and 0 <= cp2 <= 40 and 0 <= fl2 <= 12
+    pre: 11 <= cp <= 40 and 0 <= fl <= 12 and 0 <= cp2 <= 40 and 0 <= fl2 <= 12
+    post: _
+    """
+    return two_crashes_body(tf, True, True, t0, t1, t2, cp, fl, False, False, cp2, fl2)
+
+
+def two_crashes_then_load_1101a(tf: int, t0: int, t1: int, t2: int, cp: int, fl: int, cp2: int, fl2: int) -> bool:
+    """
+    pre: tf >= 100 and t0 >= 0 and t1 >= 0 and t2 >= 0
+    pre: 0 <= cp <= 10 and 0 <= fl <= 12 and 0 <= cp2 <= 40 and 0 <= fl2 <= 12
     post: _
     """
     return two_crashes_body(tf, True, True, t0, t1, t2, cp, fl, False, True, cp2, fl2)
 
 
-def two_crashes_then_load_1110(tf: int, t0: int, t1: int, t2: int, cp: int, fl: int, cp2: int, fl2: int) -> bool:
+def two_crashes_then_load_1101b(tf: int, t0: int, t1: int, t2: int, cp: int, fl: int, cp2: int, fl2: int) -> bool:
     """
     pre: tf >= 100 and t0 >= 0 and t1 >= 0 and t2 >= 0
-    pre: 0 <= cp <= 40 and 0 <= fl <= 12 and 0 <= cp2 <= 40 and 0 <= fl2 <= 12
+    pre: 11 <= cp <= 40 and 0 <= fl <= 12 and 0 <= cp2 <= 40 and 0 <= fl2 <= 12
+    post: _
+    """
+    return two_crashes_body(tf, True, True, t0, t1, t2, cp, fl, False, True, cp2, fl2)
+
+
+def two_crashes_then_load_1110a(tf: int, t0: int, t1: int, t2: int, cp: int, fl: int, cp2: int, fl2: int) -> bool:
+    """
+    pre: tf >= 100 and t0 >= 0 and t1 >= 0 and t2 >= 0
+    pre: 0 <= cp <= 10 and 0 <= fl <= 12 and 0 <= cp2 <= 40 and 0 <= fl2 <= 12
     post: _
     """
     return two_crashes_body(tf, True, True, t0, t1, t2, cp, fl, True, False, cp2, fl2)
 
 
-def two_crashes_then_load_1111(tf: int, t0: int, t1: int, t2: int, cp: int, fl: int, cp2: int, fl2: int) -> bool:
+def two_crashes_then_load_1110b(tf: int, t0: int, t1: int, t2: int, cp: int, fl: int, cp2: int, fl2: int) -> bool:
     """
     pre: tf >= 100 and t0 >= 0 and t1 >= 0 and t2 >= 0
-    pre: 0 <= cp <= 40 and 0 <= fl <= 12 and 0 <= cp2 <= 40 and 0 <= fl2 <= 12
+    pre: 11 <= cp <= 40 and 0 <= fl <= 12 and 0 <= cp2 <= 40 and 0 <= fl2 <= 12
+    post: _
+    """
+    return two_crashes_body(tf, True, True, t0, t1, t2, cp, fl, True, False, cp2, fl2)
+
+
+def two_crashes_then_load_1111a(tf: int, t0: int, t1: int, t2: int, cp: int, fl: int, cp2: int, fl2: int) -> bool:
+    """
+    pre: tf >= 100 and t0 >= 0 and t1 >= 0 and t2 >= 0
+    pre: 0 <= cp <= 10 and 0 <= fl <= 12 and 0 <= cp2 <= 40 and 0 <= fl2 <= 12
+    post: _
+    """
+    return two_crashes_body(tf, True, True, t0, t1, t2, cp, fl, True, True, cp2, fl2)
+
+
+def two_crashes_then_load_1111b(tf: int, t0: int, t1: int, t2: int, cp: int, fl: int, cp2: int, fl2: int) -> bool:
+    """
+    pre: tf >= 100 and t0 >= 0 and t1 >= 0 and t2 >= 0
+    pre: 11 <= cp <= 40 and 0 <= fl <= 12 and 0 <= cp2 <= 40 and 0 <= fl2 <= 12
     post: _
     """
     return two_crashes_body(tf, True, True, t0, t1, t2, cp, fl, True, True, cp2, fl2)
@@ -893,11 +1037,12 @@ def conditions(tier):
              "with bounded preemptions at visible events (A runs a1 events, B b1, A 0/1/2/all more, B to its end, A to its end; symbolic), buffered data flushed none/half/all while suspended; a third process auto-loads (real code) after any one of the five segments",
              tier="quick" if (a, b) == (0, 0) else "thorough", env=ENV, encodes=ENC) for a in (0, 1) for b in (0, 1)
     ] + [
-        Cond(f"two_interrupted_runs_then_fresh_load_{hf}{ha}{df}{da}", HEAD, f"two_crashes_then_load_{hf}{ha}{df}{da}", 3000,
+        Cond(f"two_interrupted_runs_then_fresh_load_{hf}{ha}{df}{da}{h}", HEAD, f"two_crashes_then_load_{hf}{ha}{df}{da}{h}", 3000,
              "as the first condition with TWO consecutive interrupted runs before the fresh auto-load; "
-             f".fai {'present' if hf else 'absent'} and .agp {'present' if ha else 'absent'} at the start, .fai {'deleted' if df else 'kept'} and .agp {'deleted' if da else 'kept'} after the first run "
-             "(the 16 conditions enumerate these four booleans; crash points, flush boundaries and clock ticks symbolic)", tier="thorough", env=ENV, encodes=ENC)
-        for hf in (0, 1) for ha in (0, 1) for df in (0, 1) for da in (0, 1)
+             f".fai {'present' if hf else 'absent'} and .agp {'present' if ha else 'absent'} at the start, .fai {'deleted' if df else 'kept'} and .agp {'deleted' if da else 'kept'} after the first run, "
+             f"first run interrupted {'before one of its first 11 file operations' if h == 'a' else 'at a later file operation or not at all'} "
+             "(32 conditions enumerate these; crash points, flush boundaries and clock ticks symbolic)", tier="thorough", env=ENV, encodes=ENC)
+        for hf in (0, 1) for ha in (0, 1) for df in (0, 1) for da in (0, 1) for h in "ab"
     ]
     return out
 
